@@ -1,5 +1,6 @@
 //! nfmc — bounded-exhaustive model checking harness for netflow_parser (see /verif/DESIGN.md).
 mod alloc;
+mod alphabet;
 mod cform;
 mod diff;
 mod engine;
@@ -26,6 +27,8 @@ fn main() {
             let tier = args.get(3).map(|s| s.as_str()).unwrap_or("quick");
             match id {
                 "C03" => props::c03::run(tier),
+                "C04" => props::c04::run(tier),
+                "C05" => props::c05::run(tier),
                 "C08" => props::c08::run(tier),
                 _ => {
                     eprintln!("unknown property {}", id);
